@@ -4,12 +4,13 @@ set -eu
 export GOFLAGS=-mod=mod GOPROXY=off GOSUMDB=off GOTOOLCHAIN=local
 NAME="$1"; OUT="$2"
 V="${VERIF_DIR:-/verif}"
+R="${VERIF_REPO:-/repo}"
 mkdir -p "$V/.build"
 if [ ! -x "$V/.build/vinstr" ] || [ -n "$(find "$V/tools/vinstr" -name '*.go' -newer "$V/.build/vinstr")" ]; then
   (cd "$V/tools/vinstr" && go build -o "$V/.build/vinstr" .)
 fi
 SCRATCH=$(mktemp -d "${VERIF_SCRATCH:-/dev/shm}/vinstr.XXXXXX")
 trap 'rm -rf "$SCRATCH"' EXIT
-"$V/.build/vinstr" -repo /repo -out "$SCRATCH" -vsched "$V/engine/vsched" -extra "/repo/html/zz_verif_reset.go=$V/engine/hooks/html_reset.go" > "$SCRATCH/vinstr.log" || { cat "$SCRATCH/vinstr.log" >&2; exit 2; }
+"$V/.build/vinstr" -repo "$R" -out "$SCRATCH" -vsched "$V/engine/vsched" -extra "$R/html/zz_verif_reset.go=$V/engine/hooks/html_reset.go" > "$SCRATCH/vinstr.log" || { cat "$SCRATCH/vinstr.log" >&2; exit 2; }
 cp "$SCRATCH/vinstr-report.json" "$V/.build/vinstr-report.json"
 (cd "$V/harness" && go build -overlay "$SCRATCH/overlay.json" -o "$OUT" "./cmd/$NAME")
